@@ -174,7 +174,9 @@ def _generator(ctx):
     ctx.floor("R09.4", "stores of the generated grid", len(st), 1)
     e = st[0]
     P = r.params
-    nun = A.at(e, "n_units")
+    bg0 = calls_to(r, GG + ".build_integer_grid")
+    ctx.require(bg0, "anchor vanished: build_integer_grid call")
+    nun = arg(bg0[0], 0)
     b = {"pd": glob("pandas"), "relu": glob("spec.relu"), "acc": A.at(e, "self.accumulator"), "gs": P["grid_size"],
          "gl": P["grid_limit"], "nu": nun, "pb": P["pos_basis"], "nb": P["neg_basis"], "off": A.at(e, "self.grid_offset"),
          "float": glob("builtins.float")}
